@@ -18,10 +18,11 @@ Local Open Scope N_scope.
 
 Inductive act :=
 | AWake (n : N) | AIn (toks : list N) | AWinch | ATerm | AWrite (len : N) | APause (b : bool)
-| APoll (tmo : option N).
+| APoll (tmo : option N) (send pending : N).   (* observed after the poll: stats.send, frames_pending() *)
 
-(* poll results: Wake, Resize, key/token, None, quit error, other error *)
-Inductive pobs := OW | OR | OK (t : N) | ON | OQ | OE.
+(* poll results: Wake, Resize, key/token, None, quit error, other error, OH = an infinite poll that
+   had not returned after two seconds although the script left an event outstanding *)
+Inductive pobs := OW | OR | OK (t : N) | ON | OQ | OE | OH.
 
 Inductive c17_case :=
 | CS (acts : list act) (obs : list pobs) (end_paused restored closing : bool)
@@ -30,7 +31,7 @@ Inductive c17_case :=
 
 Definition pobs_eqb (a b : pobs) : bool :=
   match a, b with
-  | OW, OW | OR, OR | ON, ON | OQ, OQ | OE, OE => true
+  | OW, OW | OR, OR | ON, ON | OQ, OQ | OE, OE | OH, OH => true
   | OK x, OK y => x =? y
   | _, _ => false
   end.
@@ -44,13 +45,37 @@ Definition closing_seq : list N := [27; 99].        (* stands for dispose's clos
 Definition mk_round (expired : bool) (before : list (emove N)) (accept : option N) : round_env N :=
   mkR expired before false accept false [] [] [] 1024.
 
-Definition sched_for (tmo : option N) (paused : bool) : list (round_env N) :=
-  let acc := if paused then None else Some 1000000000 in
-  match tmo with
-  | Some 0 => repeat (mk_round true [] acc) 4
-  | Some _ => repeat (mk_round false [] acc) 6 ++ repeat (mk_round true [] acc) 2
-  | None => repeat (mk_round false [] acc) 12
+(* a kernel schedule for one poll that delivers d bytes in all and leaves `count` chunks (as in
+   Corr/C16Pty.v): the one thing about the kernel's short writes the loop condition depends on *)
+Fixpoint resched (fuel : nat) (q : queue N) (d : N) (count : nat) : list (option N) :=
+  match fuel with
+  | O => []
+  | S f =>
+      if 0 <? d then
+        match consume_with q (consumer d true) with
+        | Ok (q', size) => Some d :: resched f q' (d - size) count
+        | _ => []
+        end
+      else if Nat.ltb count (chunks_count q) then
+        match consume_with q (consumer 0 true) with
+        | Ok (q', _) =>
+            if Nat.ltb (chunks_count q') (chunks_count q) then Some 0 :: resched f q' 0 count else []
+        | _ => []
+        end
+      else []
   end.
+
+Definition sched_for (tmo : option N) (s : st) (send pending : N) : list (round_env N) :=
+  let q := flush (tq (io s)) in
+  let d := send - N.of_nat (sent (io s)) in
+  let accepts := resched (2 * chunks_count q + 4) q d (N.to_nat pending) in
+  let expired0 := match tmo with Some 0 => true | _ => false end in
+  map (fun a => mk_round expired0 [] a) accepts
+  ++ match tmo with
+     | Some 0 => repeat (mk_round true [] None) 3
+     | Some _ => repeat (mk_round false [] None) 4 ++ repeat (mk_round true [] None) 2
+     | None => repeat (mk_round false [] None) 6
+     end.
 
 Definition res_obs (r : pres N) : option pobs :=
   match r with
@@ -78,12 +103,12 @@ Fixpoint model_run (s : st) (paused : bool) (acts : list act) (obs : list pobs) 
           model_run (upd_io s (mkT (write (tq t) (repeat 0 (N.to_nat len))) (tty t) (sent t)))
                     paused rest obs
       | APause b => model_run s b rest obs
-      | APoll tmo =>
+      | APoll tmo send pending =>
           match obs with
           | [] => None
           | o :: obs' =>
               let finite := match tmo with Some _ => true | None => false end in
-              let '(r, s', _) := poll finite s (sched_for tmo paused) in
+              let '(r, s', _) := poll finite s (sched_for tmo s send pending) in
               match res_obs r with
               | Some o' => if pobs_eqb o o' then model_run s' paused rest obs' else None
               | None => None
@@ -115,8 +140,9 @@ Definition model_case (acts : list act) (obs : list pobs) (end_paused restored c
 
 (* ---------------------------------------------------------------- specification side *)
 (* o_wake: a wake request has not been answered by a Wake event yet (a Wake is owed);
-   o_may: how many more Wake events may still come (requests coalesce, they are not invented) *)
-Record outstanding := mkO { o_wake : bool; o_may : N; o_winch : bool; o_term : bool; o_keys : list N }.
+   o_may: how many more Wake events may still come (requests coalesce, they are not invented);
+   o_winch / o_wmay: the same for SIGWINCH and Resize *)
+Record outstanding := mkO { o_wake : bool; o_may : N; o_winch : bool; o_wmay : N; o_term : bool; o_keys : list N }.
 
 Definition nothing_outstanding (o : outstanding) : bool :=
   negb (o_wake o) && negb (o_winch o) && negb (o_term o)
@@ -127,27 +153,29 @@ Fixpoint spec_run (o : outstanding) (acts : list act) (obs : list pobs) : bool :
   | [] => match obs with [] => true | _ => false end
   | a :: rest =>
       match a with
-      | AWake n => spec_run (mkO true (o_may o + n) (o_winch o) (o_term o) (o_keys o)) rest obs
-      | AIn toks => spec_run (mkO (o_wake o) (o_may o) (o_winch o) (o_term o) (o_keys o ++ toks)) rest obs
-      | AWinch => spec_run (mkO (o_wake o) (o_may o) true (o_term o) (o_keys o)) rest obs
-      | ATerm => spec_run (mkO (o_wake o) (o_may o) (o_winch o) true (o_keys o)) rest obs
+      | AWake n => spec_run (mkO true (o_may o + n) (o_winch o) (o_wmay o) (o_term o) (o_keys o)) rest obs
+      | AIn toks => spec_run (mkO (o_wake o) (o_may o) (o_winch o) (o_wmay o) (o_term o) (o_keys o ++ toks)) rest obs
+      | AWinch => spec_run (mkO (o_wake o) (o_may o) true (o_wmay o + 1) (o_term o) (o_keys o)) rest obs
+      | ATerm => spec_run (mkO (o_wake o) (o_may o) (o_winch o) (o_wmay o) true (o_keys o)) rest obs
       | AWrite _ | APause _ => spec_run o rest obs
-      | APoll _ =>
+      | APoll _ _ _ =>
           match obs with
           | [] => false
           | ob :: obs' =>
               match ob with
-              | OW => (0 <? o_may o) && spec_run (mkO false (o_may o - 1) (o_winch o) (o_term o) (o_keys o)) rest obs'
-              | OR => o_winch o && spec_run (mkO (o_wake o) (o_may o) false (o_term o) (o_keys o)) rest obs'
+              | OW => (0 <? o_may o)
+                      && spec_run (mkO false (o_may o - 1) (o_winch o) (o_wmay o) (o_term o) (o_keys o)) rest obs'
+              | OR => (0 <? o_wmay o)
+                      && spec_run (mkO (o_wake o) (o_may o) false (o_wmay o - 1) (o_term o) (o_keys o)) rest obs'
               | OK t => match o_keys o with
-                        | k :: ks => (k =? t) && spec_run (mkO (o_wake o) (o_may o) (o_winch o) (o_term o) ks) rest obs'
+                        | k :: ks => (k =? t) && spec_run (mkO (o_wake o) (o_may o) (o_winch o) (o_wmay o) (o_term o) ks) rest obs'
                         | [] => false
                         end
               (* a SIGWINCH flagged together with the termination signal is not owed any more:
                  the session is over (its flag stays set, design/C17.md) *)
-              | OQ => o_term o && spec_run (mkO (o_wake o) (o_may o) false false (o_keys o)) rest obs'
+              | OQ => o_term o && spec_run (mkO (o_wake o) (o_may o) false (o_wmay o) false (o_keys o)) rest obs'
               | ON => nothing_outstanding o && spec_run o rest obs'
-              | OE => false
+              | OE | OH => false
               end
           end
       end
@@ -157,7 +185,7 @@ Definition c17_check (c : c17_case) : bool * bool :=
   match c with
   | CS acts obs end_paused restored closing =>
       (model_case acts obs end_paused restored closing,
-       spec_run (mkO false 0 false false []) acts obs && restored && closing)
+       spec_run (mkO false 0 false 0 false []) acts obs && restored && closing)
   | CT requested seen other last quiet =>
       (* coalescing allowed, loss and invention impossible; a request after the storm is seen *)
       (true, (1 <=? seen) && (seen <=? requested) && (other =? 0) && last && quiet)
